@@ -7,9 +7,11 @@ package main
 //   - routing.Handler(data) with SPOE `lunar-on-request` / `lunar-on-response` messages, and
 //   - the real admin routes /apply_policies, /revert_to_last_loaded, /revert_to_diagnosis_free.
 // Policies of label k are made observable on both paths ("lens"):
-//   request  path: a global account_orchestration remedy sets header x-verif-version: v<k>
-//   response path: a global retry remedy fires only on status 500+k and answers
-//                  x-lunar-retry-after = 10+k for a new sequence (attempts 3, multiplier 1)
+//   request  path: a global account_orchestration remedy sets header x-verif-version: v<k>; the value
+//                  lives in the ACCOUNTS section (token of account `a`)
+//   response path: a global retry remedy fires only on status 500+(k mod 10) and answers
+//                  x-lunar-retry-after = 10+(k mod 10) for a new sequence (attempts 3, multiplier 1)
+// so two labels with the same units digit differ in the accounts section only.
 // The mock clock of the child never advances (retention/vacuum timing is level 1's subject); every
 // case uses process-unique transaction ids, so a case's answers are a function of its op lines.
 
@@ -76,7 +78,7 @@ accounts:
       - header:
           name: x-verif-version
           value: v%d
-`, lensAttempts, 10+label, 500+label, 500+label, label)
+`, lensAttempts, 10+label%10, 500+label%10, 500+label%10, label)
 }
 
 // ------------------------------------------------------------------ child side
